@@ -119,8 +119,8 @@ func TestReplay_wal_model(t *testing.T) {
 		if !thorough && pi%11 != 0 && len(prog) == 3 {
 			continue // quick tier: every eleventh program of full length
 		}
-		if thorough && pi%40 != 0 && len(prog) == 4 {
-			continue // thorough tier: all programs up to length 3, every fortieth of length 4
+		if thorough && pi%80 != 0 && len(prog) == 4 {
+			continue // thorough tier: all programs up to length 3, every eightieth of length 4
 		}
 		for _, limit := range limits {
 			for failAt := -1; failAt < 3; failAt++ { // -1: no injected fault; k: the k-th writer creation after the first fails
@@ -241,8 +241,8 @@ func govcWalRun(t *testing.T, prog []govcWalOp, limit uint64, failAt int, thorou
 			}
 			full := snap[last]
 			var cuts []int
-			if thorough { // about 20 evenly spaced cut points, plus both ends of the window
-				stepCut := (len(full) - floor) / 20
+			if thorough { // about 12 evenly spaced cut points, plus both ends of the window
+				stepCut := (len(full) - floor) / 12
 				if stepCut < 1 {
 					stepCut = 1
 				}
